@@ -141,6 +141,17 @@ class Stream:
         completed).
         """
 
+        # someone already called close() but we're not closed yet: the
+        # new caller waits for the same thing (as in Circuit.close)
+        if self._closing_deferred:
+            d = defer.Deferred()
+
+            def closed(arg):
+                d.callback(arg)
+                return arg
+            self._closing_deferred.addBoth(closed)
+            return d
+
         self._closing_deferred = defer.Deferred()
 
         def close_command_is_queued(*args):
